@@ -1,0 +1,5 @@
+//go:build !verif
+
+package future
+
+func verifSpawn(run func()) bool { return false }
